@@ -46,3 +46,31 @@ Definition expected_conn (chain_after : list Z) (fbefore fafter : nat) : list ev
 (* the backlog for a non-zero height: the committed blocks above it *)
 Definition expected_backlog (chain : list Z) (flen : nat) (h : Z) : list (Z * Z) :=
   map (fun i => (default 0 (chain !! i), Z.of_nat i)) (seq (zn h + 1) (flen - (zn h + 1))).
+
+(* ---------- moments INSIDE an operation ----------
+   The notification channel is unbuffered and the subscription manager asks
+   for a backlog from the goroutine that consumes it, so a backlog request can
+   arrive while the block manager is blocked handing over event k of the
+   operation's events [evs] (events 0..k-1 delivered; k = length evs: the
+   operation has finished).  [cb]/[ca]: committed chain (hashes by height)
+   before / after the operation.
+
+   - blocked on a disconnected event: every store rollback precedes its event
+     and blocks written inside the operation are never filter-committed inside
+     it, so the committed chain is [cb] cut below the lowest height announced
+     as disconnected so far, the pending event included;
+   - blocked on a connected event (filter-header batch): the batch was
+     committed before its first event, so the committed chain is already [ca];
+   - finished: [ca]. *)
+Definition low_water (cap : Z) (es : list ev) : Z :=
+  fold_left (fun m e => match e with EDisc _ h _ => Z.min m h | EConn _ _ => m end) es cap.
+
+Definition committed_at (cb ca : list Z) (evs : list ev) (k : nat) : list Z :=
+  match evs !! k with
+  | Some (EDisc _ _ _) => take (zn (low_water (zlen cb) (take (S k) evs))) cb
+  | _ => ca
+  end.
+
+(* the backlog for a non-zero height requested at a moment whose committed
+   chain is [cm] *)
+Definition moment_backlog (cm : list Z) (h : Z) : list (Z * Z) := expected_backlog cm (length cm) h.
